@@ -7,7 +7,7 @@ RULE = ('(a) every region kind x random bodies over the full character set (minu
         'exactly one token of the kind covers the region; (b) EXHAUSTIVE: every word of every keyword dictionary x {upper, lower, capitalized, random case} x delimited contexts lexes to one token '
         'of the type of the first dictionary listing it or of an earlier dedicated rule (as recorded by the real rule table); a word in no dictionary is a Name; non-trivial = distinct (kind/word, context)')
 ASSUMPTIONS = ['the Lean theorems are about one scan step at the opener (firstMatch); that the opener is reached at a scan boundary is sampled here through the left contexts']
-PARTIAL = ['region clause proved; keyword clause: 790 of 809 dictionary entries certified universally (any left context, any delimiter), the 19 others evaluated on a concrete context + exhaustive enumeration on the real lexer; other casings via keyword_case_invariant']
+PARTIAL = ['region clause proved; keyword clause: 790 of 809 dictionary entries certified universally (any left context, any delimiter), in EVERY letter casing (dict_word_any_casing), the 19 others (words with dedicated rules) evaluated on a concrete context + exhaustive enumeration on the real lexer; the table obligations are index-free (rules are found by content: firstWith), so unrelated rule insertions do not disturb them']
 
 LEFT = ['', ' ', '\n', '(', ',', ';', 'a ', '1 ', '= ', 'x,', ')\t', "'q' ", '/*c*/', '-- c\n', 'select ']
 RIGHT = ['', ' ', '\n', ')', ',', ';', ' b', ' 1', ' =', ' from t', '\r\n', '/*c*/', ' -- c']
